@@ -16,10 +16,14 @@ from concurrent.futures import ThreadPoolExecutor
 import vlib
 
 
+GUNIT = 0xAAAAAAAAAB   # 733 007 751 851 ulps; 6100 units stay inside [1,2)
+
+
 def exact_py(t, pts, shift=3):
     """Independent big-integer evaluation: only a guard against a transcription slip in the TLA+ module and
     against coefficients that reach the lattice unit (then the first-non-zero-coefficient rule does not apply)."""
-    K = 2 ** (52 - shift)
+    # shift <= 52: the lattice unit is 2^-shift; larger values: the lattice unit is `shift` ulps (not a power of two)
+    K = 2 ** (52 - shift) if shift <= 52 else shift
     co = [[K * p[j] + p[3 + j] for j in range(3)] for p in pts]
     if t == "o":
         r = [[co[i][j] - co[3][j] for j in range(3)] for i in range(3)]
@@ -119,6 +123,48 @@ def gen_cases(tier, rng):
         pts = [[x0 + t * dx, y0 + t * dy, rng.randint(0, 7)] + [rng.randint(-4, 4) for _ in range(3)] for t in ts]
         if len(set(tuple(p[:3]) for p in pts)) == 4:
             by[5].append({"t": "o", "s": 25, "p": pts})
+    # "wide parallelogram" family: a, a + B, a + C, a + B + C with long edges (up to 250 units per axis) whose projections
+    # on one coordinate plane are almost parallel (projected area of one unit), then moved by 1..3 ulps.  The lattice unit
+    # is GUNIT ulps, an odd 40 bit number: coordinate differences have dense 48 bit mantissas, every product of the
+    # floating-point evaluation rounds, and the rounding noise is 10^3..10^4 times the exact determinant (the perturbation
+    # times a cofactor of one unit): only an honest error bound sends the filter to the exact fall-back.  The exact sign
+    # is still the first non-zero coefficient of the polynomial in 1 / GUNIT (all coefficients are below 2^31 < GUNIT).
+    def egcd(a, b):
+        if b == 0:
+            return (a, 1, 0)
+        g, x, y = egcd(b, a % b)
+        return (g, y, x - (a // b) * y)
+    made = 0
+    while made < (4000 if tier == "quick" else 40000):
+        u1, u2 = rng.randint(-60, 60), rng.randint(-60, 60)
+        if u1 == 0 or u2 == 0:
+            continue
+        g, x, y = egcd(abs(u1), abs(u2))
+        if g != 1:
+            continue
+        # u1 * e2 - u2 * e1 = +-1
+        e2, e1 = x * (1 if u1 > 0 else -1), -y * (1 if u2 > 0 else -1)
+        if abs(u1 * e2 - u2 * e1) != 1:
+            continue
+        m = rng.choice([1, 2, 3, -2])
+        B = [u1, u2, rng.randint(-250, 250)]
+        C = [m * u1 + e1, m * u2 + e2, rng.randint(-250, 250)]
+        if max(abs(v) for v in B + C) > 250:
+            continue
+        ax = rng.sample(range(3), 3)
+        B, C = [B[ax[j]] for j in range(3)], [C[ax[j]] for j in range(3)]
+        a = [rng.randint(600, 5000) for _ in range(3)]
+        P = [a, [a[j] + B[j] for j in range(3)], [a[j] + C[j] for j in range(3)], [a[j] + B[j] + C[j] for j in range(3)]]
+        order = rng.sample(range(4), 4)
+        if made % 4 != 3:
+            pts = [list(P[i]) + zero for i in order]
+            # the coordinate whose cofactor is the projected area of one unit
+            i, j = rng.randrange(4), ax.index(2)
+            pts[i][3 + j] = rng.choice([1, -1, 2, -2, 3, -3])
+            by[1].append({"t": "o", "s": GUNIT, "p": pts})
+        else:
+            by[3].append({"t": "o", "s": GUNIT, "p": [list(P[i]) + [rng.randint(-2, 2) for _ in range(3)] for i in order]})
+        made += 1
     # coordinates must stay inside [1,2): a lattice coordinate 0 cannot be perturbed downwards
     for cases in by.values():
         for cs in cases:
@@ -214,7 +260,8 @@ def run(c):
     c.cov["rule"] = ("4-subsets / 5-subsets of small lattices (all exactly coplanar / cospherical configurations of the lattice "
                      "occur), all 24 permutations for a subset, perturbations of degenerate configurations by 1..1000 ulps "
                      "(first order), by <= 300 / <= 30 ulps (orders 3 / 2), and on a fine lattice (unit 2^27 ulps, where the floating-point "
-                     "filter really rounds) by <= 3 ulps on every coordinate (all orders)")
+                     "filter really rounds) by <= 3 ulps on every coordinate (all orders), and wide parallelograms (unit 2^35 ulps, edges of up to 250 units, one projected area of a single unit) "
+                     "moved by <= 3 ulps, where the double evaluation is dominated by rounding noise")
     c.cov["exhaustive"] = tier != "quick"
     c.assumptions += ["random non-lattice inputs with full 52-bit mantissas are outside TLC's 32-bit integers; they are covered only "
                       "through perturbed lattice configurations", "insphere sign convention: determinant with rows (p - e, |p - e|^2) "
